@@ -68,22 +68,24 @@ ParseKw(target) == IF target = "plss"
                          "sec_colon_required", "segment", "ocr_scrub", "sec_within", "qq_depth_min", "qq_depth_max",
                          "qq_depth", "break_halves"}
                    ELSE {"clean_qq", "suppress_lot_divs", "qq_depth_min", "qq_depth_max", "qq_depth", "break_halves"}
-InitKw(target) == IF target = "plss" THEN {"layout", "parse_qq", "wait_to_parse"} ELSE {"parse_qq"}
+\* (a Tract uses the default directions when it is built from components: Tract.from_twprgesec(..., default_ns=...))
+InitKw(target) == IF target = "plss" THEN {"layout", "parse_qq", "wait_to_parse"} ELSE {"parse_qq", "default_ns", "default_ew"}
 ConfigSettings(target) == IF target = "plss" THEN Settings
-                          ELSE {"parse_qq", "clean_qq", "suppress_lot_divs", "qq_depth", "qq_depth_min", "qq_depth_max", "break_halves"}
+                          ELSE {"parse_qq", "clean_qq", "suppress_lot_divs", "qq_depth", "qq_depth_min", "qq_depth_max", "break_halves",
+                                "default_ns", "default_ew"}
 McSettings == {"default_ns", "default_ew"}
 \* (a config assigned after creation is later than, and therefore overrides, whatever __init__ set)
 Strength(ch) == CASE ch = "parse_kw" -> 5 [] ch = "assign_config" -> 4 [] ch = "init_kw" -> 3
                   [] ch = "init_config" -> 2 [] ch = "mc" -> 1 [] ch = "none" -> 0
 \* settings that take effect while the object is created cannot be assigned afterwards
-AtCreation(target, s) == s = "wait_to_parse" \/ (target = "tract" /\ s = "parse_qq")
+AtCreation(target, s) == s = "wait_to_parse" \/ (target = "tract" /\ s \in {"parse_qq", "default_ns", "default_ew"})
 ChannelsFor(target, s) ==
   IF s \notin ConfigSettings(target) THEN {}
   ELSE (IF s \in ParseKw(target) /\ ~AtCreation(target, s) THEN {"parse_kw"} ELSE {})
        \cup (IF s \in InitKw(target) THEN {"init_kw"} ELSE {})
        \cup {"init_config"}
        \cup (IF ~AtCreation(target, s) THEN {"assign_config"} ELSE {})
-       \cup (IF s \in McSettings /\ target = "plss" THEN {"mc"} ELSE {})
+       \cup (IF s \in McSettings THEN {"mc"} ELSE {})
 
 VARIABLES phase,       \* "start" -> "created" -> ("assigned") -> "parsed"   | "codec"
           scn,         \* [target, s, v, ch, ch2, s2, v2]   (s2 = s except in the related-settings scenarios)
